@@ -81,6 +81,9 @@ def nl_floordiv(ex, st, a, b, node):
     ex.oblige(st, 'safety', 'floor-division-by-positive', b > 0, node)
     q = ex.fresh_int('quot')
     st.assume(b * q <= a, a < b * q + b, z3.Implies(a >= 0, q >= 0))
+    # the same fact for the uninterpreted product of dimensions that `(m // k) * k` evaluates to (mulI is the product by definition)
+    pq = T.mul_canon(b, q)
+    st.assume(pq <= a, a < pq + b)
     st.ghost.setdefault('floordiv', []).append((a, b, q))
     return q
 
